@@ -425,6 +425,16 @@ func c16Verifier(r *Run, t *tape.Tape) {
 	if variant != "exact" {
 		r.Fired("sig.reencode." + variant)
 	}
+	if len(offered) == len(good) && variant != "exact" && t.Bool(1, 3, "c16.samebuffer") {
+		// a receive buffer that is re-used: the genuine signature is verified
+		// out of it first, then the variant is written over it in place and
+		// the same slice is offered to the same verifier again
+		buf := append([]byte{}, good...)
+		r.Lib(func() { verifier.Verify(content, buf) })
+		copy(buf, offered)
+		offered = buf
+		r.Fired("sig.same-buffer-overwritten")
+	}
 	var err error
 	r.Steps++
 	if lp := call(func() { err = verifier.Verify(content, offered) }); lp != nil {
